@@ -76,7 +76,8 @@ class proxy_info:
         else:
             self.proxy_port = 0
             self.auth = None
-            self.no_proxy = None
+            # the exemption list also applies to a proxy taken from the environment
+            self.no_proxy = options.get("http_no_proxy", None)
             self.proxy_protocol = "http"
 
 
